@@ -26,3 +26,10 @@ package jsoncanonicalizer
 //@   let oldKey := e.Value.(nameValueType).sortKey
 //@   ensures [strict-order] r == old(keyLess(sortKey, oldKey))
 //@   loop 0 invariant [prefix] 0 <= q && q <= minLength && (forall p int :: 0 <= p && p < q ==> sortKey[p] == oldKey[p])
+
+// NumberToJSON indexes into the text returned by strconv.FormatFloat; that these indices are in range
+// depends on the exact shape of FormatFloat's output ("d.ddde+dd", no leading zero, ...), which is not
+// modelled. Checked by the bounded stand-in c05_jcs over a list of boundary doubles, not proved.
+//@ func NumberToJSON(ieeeF64) (res, err)
+//@   pure
+//@   trusted "bounded: depends on the output shape of strconv.FormatFloat; checked by bounded/c05_jcs"
